@@ -628,9 +628,16 @@ func VerifUpdateInline() {
 	}
 	_ = wo.Close()
 	proof := verifFreeProof(verifMaxProofLen(N))
-	_, uerr := w.Update(context.Background(), c.ids[0], rt.U64("oldSize"), next, proof)
+	oldSize := rt.U64("oldSize")
+	out, uerr := w.Update(context.Background(), c.ids[0], oldSize, next, proof)
 	rt.Cover(uerr == nil && n > m, "inline/growth-accepted")
 	rt.Cover(uerr == ErrInvalidProof, "inline/proof-refused")
+	if rt.Prop("C09") && oldSize == uint64(m) && n > m && uerr != nil && rt.Count("SignFail") == 0 && rt.SigLines(next)+uint64(len(c.wkeys)) <= 100 {
+		// whatever the real verifier objects to (length, recomputed root, final comparison), the
+		// answer to a growth request with the right old size is the bare sentinel and the stored bytes
+		rt.Assert(uerr == ErrInvalidProof, "C09/7-invalid-proof-is-the-sentinel-itself")
+		rt.Assert(out != nil && rt.Eq(out, prev), "C09/7-invalid-proof-returns-the-stored-checkpoint")
+	}
 	if uerr == nil {
 		for i := 0; i < m; i++ {
 			rt.Assert(rt.Eq(x[i], y[i]), "C01/accepted-growth-extends-the-stored-tree")
